@@ -21,7 +21,7 @@ META = dict(
             "optimality of CBC/GLPK themselves",
     stubs=["cvxpy/CBC/GLPK = contract stub", "numba.njit = identity", "np float arrays = object arrays of z3 reals"],
     assumptions=["pair dissimilarities symmetric and >= 0", "delta_empty > 0", "alpha, beta >= 0"],
-    cfg_budget_s=dict(quick=200, thorough=1700),
+    cfg_budget_s=dict(quick=200, thorough=900),
 )
 
 
@@ -35,6 +35,11 @@ def configs(tier):
         out.append(dict(key=f"positional,sizes={s}", sizes=list(s), dissim="positional", labels="none", backend="cbc", cost=50))
     for s in [(2, 1), (2, 2)]:
         out.append(dict(key=f"combined-fixedcoords,sizes={s}", sizes=list(s), dissim="combined", labels="xy", coords="fixed", backend="cbc", cost=80))
+    # histories on one continuum object: an earlier computation, then an edit through the public API, then the alignment under test
+    for s in [(2, 1), (1, 1, 1)]:
+        for warm in ("remove", "add-remove"):
+            out.append(dict(key=f"best,after-earlier-computation-and-{warm},sizes={s}", sizes=list(s), dissim="abstract", backend="cbc", mode="best", warm=warm,
+                            cost=len(common.all_tuples(s)) ** 2))
     if tier == "thorough":
         for s in [(3, 2), (3, 3), (2, 1, 1), (2, 2, 1), (1, 1, 1, 1)]:
             for b in ["cbc", "glpk_import"][:(2 if sum(s) <= 5 else 1)]:
